@@ -74,6 +74,13 @@ def run(ctx, chk):
         f = prog.fn(l)
         chk.ob("C10.loader", "%s reads %d bytes" % (l, loader_ext(l)), loader_ext(l) in (2, 4, 8), "%s:%d" % (f.file, f.line), fn=l, nontrivial=False)
 
+    nm = mirror(chk, "C10.mirror", "C10.simple", prog, eff, encs, by_byte, enumv, loader_ext)
+    chk.floor("C10.mirror", "encoder byte -> decoder arm links", nm, 250)
+    chk.exhaustive = True
+
+
+def mirror(chk, rule_mirror, rule_simple, prog, eff, encs, by_byte, enumv, loader_ext):
+    FIN = enumv["CBOR_DECODER_FINISHED"]
     # mirror: encoder classes -> dispatch
     fdec = prog.fn("cbor_stream_decode")
     nm = 0
@@ -97,7 +104,7 @@ def run(ctx, chk):
                 decodable = ref != ("error",)
                 outs_c = by_byte[c]
                 got_err = all(o["status"] == ("c", enumv["CBOR_DECODER_ERROR"]) for o in outs_c)
-                chk.ob("C10.simple", "0x%02X (%s)" % (c, "decodable" if decodable else "encodable only"),
+                chk.ob(rule_simple, "0x%02X (%s)" % (c, "decodable" if decodable else "encodable only"),
                        got_err != decodable, "%s:%d" % (fdec.file, fdec.line), fn="cbor_stream_decode", key="simple:%02X" % c)
                 if not decodable:
                     continue
@@ -111,6 +118,5 @@ def run(ctx, chk):
                         detail = det
             # consumed bytes = bytes written
             nm += 1
-            chk.ob("C10.mirror", "%s -> 0x%02X" % (n, c), ok, "%s:%d" % (fdec.file, fdec.line), fn=n, key="%s:%02X" % (n, c), detail=detail)
-    chk.floor("C10.mirror", "encoder byte -> decoder arm links", nm, 250)
-    chk.exhaustive = True
+            chk.ob(rule_mirror, "%s -> 0x%02X" % (n, c), ok, "%s:%d" % (fdec.file, fdec.line), fn=n, key="%s:%02X" % (n, c), detail=detail)
+    return nm
